@@ -333,6 +333,12 @@ func (r *Run) Finish(verifDir string, findings []Finding, expect map[string]int,
 		}
 		analysed[k] = m
 	}
+	if r.Assumptions == nil {
+		r.Assumptions = []string{"the Go toolchain's type checker and go/ssa construction are correct"}
+	}
+	if r.Trusted == nil {
+		r.Trusted = []string{"go/packages, go/types, go/ssa"}
+	}
 	seed := 0
 	fmt.Sscan(os.Getenv("VERIF_SEED"), &seed)
 	cov := map[string]interface{}{
